@@ -348,4 +348,171 @@ theorem fvLoop_bound (hk : SvdKernel k) (htol : 0 ≤ tol) : ∀ (rem : Nat) (v 
 
 end loop
 
+/-! ## the loop raises no exception on a non-zero remainder (non-vacuity) -/
+
+section ok
+variable {k : MPS.SvdKernels 𝕜 ℝ} {tol : ℝ} {d : Nat}
+
+theorem fvLoop_ok (hk : SvdKernel k) (htol : 0 ≤ tol) (htol1 : tol < 1) (hd : 0 < d) : ∀ (rem : Nat) (v : Mat 𝕜),
+    v.n = d ^ rem → 0 < v.m → 0 < frobM v →
+    ∃ As vend, MPS.fromVectorLoop k d rem v tol = .ok (As, vend) ∧ vend.n = 1 ∧ (0 < rem → vend.m = 1)
+  | 0, v, hvn, _, _ => ⟨[], v, rfl, by simpa using hvn, fun h => absurd h (Nat.lt_irrefl 0)⟩
+  | rem + 1, v, hvn, hvm, hpos => by
+    have hMm : (MPS.fvM d rem v).tab.m = v.m * d := rfl
+    have hMn : (MPS.fvM d rem v).tab.n = d ^ rem := by show MPS.ipow d rem = _; exact MPS.ipow_eq d rem
+    have hm0 : 0 < (MPS.fvM d rem v).tab.m := Nat.mul_pos hvm hd
+    have hn0 : 0 < (MPS.fvM d rem v).tab.n := by rw [hMn]; exact Nat.pow_pos hd
+    obtain ⟨sUm, sUn, sl, sVm, sVn⟩ := hk.svd.shape _ hm0 hn0
+    have hidx := C12.rule_indices_valid k.dnorm k.dargsort (k.dsvd (MPS.fvM d rem v).tab).2.1 tol
+    have hidxlt : ∀ p, p < (MPS.fvIdx k d rem v tol).length →
+        (MPS.fvIdx k d rem v tol).getD p 0 < min (MPS.fvM d rem v).tab.m (MPS.fvM d rem v).tab.n := by
+      intro p hp
+      rw [← sl]
+      exact hidx.2 _ (getD_mem_of_lt hp)
+    have hV'n : (MPS.fvV k d rem v tol).n = d ^ rem := by rw [MPS.fvV_n, sVn, hMn]
+    have hFM := raw_frob hk (MPS.fvM d rem v).tab hm0 hn0
+    rw [frobM_fvM rem v hvn] at hFM
+    have hFV : frobM (MPS.fvV k d rem v tol) =
+        sqSum ((MPS.fvIdx k d rem v tol).map fun i => (k.dsvd (MPS.fvM d rem v).tab).2.1.getD i 0) := by
+      refine frobM_scaled_rows _ (fun p j => (k.dsvd (MPS.fvM d rem v).tab).2.2.f ((MPS.fvIdx k d rem v tol).getD p 0) j)
+        _ (by rw [MPS.fvV_m, List.length_map]) ?_ ?_
+      · intro p hp
+        rw [List.length_map] at hp
+        have := hk.svd.isoV (MPS.fvM d rem v).tab _ _ (hidxlt p hp) (hidxlt p hp)
+        rw [if_pos rfl] at this
+        rw [hV'n, ← hMn]
+        exact this
+      · intro p j hp hj
+        rw [MPS.fvV_m] at hp
+        rw [MPS.fvV_f k d rem v tol hp (by rw [← MPS.fvV_n]; exact hj), getD_map_idx _ _ _ hp, mul_comm]
+        rfl
+    have hkw := kept_weight hk htol (k.dsvd (MPS.fvM d rem v).tab).2.1
+    have h4 : MPS.fvIdx k d rem v tol = retainedBondIndices k.dnorm k.dargsort
+        (k.dsvd (MPS.fvM d rem v).tab).2.1 tol := rfl
+    rw [← h4] at hkw
+    have hpos' : 0 < frobM (MPS.fvV k d rem v tol) := by
+      rw [hFV]
+      have : 0 < (1 - tol) * sqSum (k.dsvd (MPS.fvM d rem v).tab).2.1 := by
+        rw [← hFM]; exact mul_pos (by linarith) hpos
+      nlinarith [hkw.2]
+    have hK : 0 < (MPS.fvIdx k d rem v tol).length := by
+      rcases Nat.eq_zero_or_pos (MPS.fvIdx k d rem v tol).length with h0 | h
+      · have : MPS.fvIdx k d rem v tol = [] := List.length_eq_zero_iff.1 h0
+        rw [hFV, this] at hpos'
+        simp [sqSum] at hpos'
+      · exact h
+    obtain ⟨As', vend', hrec, hn1, hm1⟩ := fvLoop_ok hk htol htol1 hd rem (MPS.fvV k d rem v tol) hV'n
+      (by rw [MPS.fvV_m]; exact hK) hpos'
+    refine ⟨MPS.fvA k d rem v tol :: As', vend', ?_, hn1, fun _ => ?_⟩
+    · rw [MPS.fromVectorLoop_succ]
+      have hc : (v.n == MPS.ipow d (rem + 1)) = true := by rw [hvn, MPS.ipow_eq]; simp
+      simp only [hc, pyAssert, if_true, bind, Except.bind, hrec, pure, Except.pure]
+    · rcases Nat.eq_zero_or_pos rem with h0 | h
+      · subst h0
+        simp only [MPS.fromVectorLoop, Except.ok.injEq, Prod.mk.injEq] at hrec
+        rw [← hrec.2, MPS.fvV_m]
+        have hle := length_le_of_pairwise_lt (D := (k.dsvd (MPS.fvM d 0 v).tab).2.1.length) hidx.1 hidx.2
+        rw [sl, hMn] at hle
+        have : (MPS.fvIdx k d 0 v tol).length ≤ 1 := le_trans hle (by simp)
+        omega
+      · exact hm1 h
+
+theorem fromVector_ok (hk : SvdKernel k) (htol : 0 ≤ tol) (htol1 : tol < 1) (hd : 0 < d) {n : Nat} (hn : 0 < n)
+    {v : List 𝕜} (hvl : v.length = d ^ n) (hne : ∃ c, c < v.length ∧ v.getD c 0 ≠ 0) :
+    ∃ ψ, MPS.fromVector k d n v tol = .ok ψ := by
+  have hpos : 0 < frobM (⟨1, v.length, fun _ c => v.toArray.getD c 0⟩ : Mat 𝕜) := by
+    obtain ⟨c, hc, hv⟩ := hne
+    unfold frobM
+    rw [Finset.sum_range_one]
+    refine lt_of_lt_of_le ?_ (Finset.single_le_sum (f := fun c => ‖v.toArray.getD c 0‖ ^ 2)
+      (fun i _ => by positivity) (Finset.mem_range.2 hc))
+    show 0 < ‖v.toArray.getD c 0‖ ^ 2
+    rw [toArray_getD]
+    exact pow_pos (norm_pos_iff.2 hv) 2
+  obtain ⟨As, vend, hloop, hn1, hm1⟩ := fvLoop_ok hk htol htol1 hd n
+    (⟨1, v.length, fun _ c => v.toArray.getD c 0⟩ : Mat 𝕜) hvl Nat.one_pos hpos
+  have hc := fvLoop_inv n _ As vend hloop
+  have hlen : As.length = n := by
+    have := chain3_length hc
+    simpa using this
+  unfold MPS.fromVector
+  have h1 : (v.length == MPS.ipow d n) = true := by rw [hvl, MPS.ipow_eq]; simp
+  have h2 : (vend.m == 1 && vend.n == 1) = true := by rw [hm1 hn, hn1]; rfl
+  have h3 : ¬ As.length = 0 := by rw [hlen]; omega
+  simp only [h1, pyAssert, if_true, bind, Except.bind, hloop, h2, h3, if_false, pure, Except.pure]
+  exact ⟨_, rfl⟩
+
+end ok
+
+/-! ## `from_vector` -/
+
+theorem scaleLast_chain3 (c : 𝕜) : ∀ {ds : List Nat} {As : List (T3 𝕜)} {Dl Dr : Nat}, Chain3 ds As Dl Dr →
+    Chain3 ds (scaleLast c As) Dl Dr
+  | [], [], _, _, h => h
+  | [], _ :: _, _, _, h => by simp at h
+  | _ :: _, [], _, _, h => by simp at h
+  | d :: ds, [A], Dl, Dr, h => by
+    simp only [chain3_cons, scaleLast] at h ⊢
+    exact h
+  | d :: ds, A :: B :: As, Dl, Dr, h => by
+    simp only [scaleLast]
+    rw [chain3_cons] at h ⊢
+    exact ⟨h.1, h.2.1, scaleLast_chain3 c h.2.2⟩
+
+/-- `‖from_vector(d, n, v, tol) - v‖² ≤ n · tol · ‖v‖²` -/
+theorem fromVector_bound {k : MPS.SvdKernels 𝕜 ℝ} (hk : SvdKernel k) {tol : ℝ} (htol : 0 ≤ tol) {d n : Nat}
+    {v : List 𝕜} {ψ : MPS 𝕜} (h : MPS.fromVector k d n v tol = .ok ψ) :
+    ∑ σ ∈ digitsU d n, ‖ψ.amp σ - v.getD (flat d σ) 0‖ ^ 2 ≤
+      n * tol * ∑ c ∈ range v.length, ‖v.getD c 0‖ ^ 2 := by
+  unfold MPS.fromVector at h
+  simp only [Dense.pyAssert_bind] at h
+  obtain ⟨hvl, h⟩ := h
+  simp only [Dense.bind_ok] at h
+  obtain ⟨⟨As, vend⟩, hloop, h⟩ := h
+  obtain ⟨u, hv, h⟩ := h
+  rw [Dense.pyAssert_ok] at hv
+  simp only [Bool.and_eq_true, beq_iff_eq] at hv hvl h
+  split at h
+  · rw [Dense.throw_bind_ne] at h; exact h.elim
+  · rename_i hn
+    rw [Dense.pure_ok] at h
+    subst h
+    have hvl' : v.length = d ^ n := by rw [hvl, MPS.ipow_eq]
+    have hc := fvLoop_inv n _ As vend hloop
+    have hb := fvLoop_bound hk htol n _ As vend hloop hvl'
+    rw [hv.1] at hc
+    have hc1 : Chain3 (List.replicate n d) As 1 1 := hc
+    have hne : As ≠ [] := by intro h0; exact hn (by simp [h0])
+    rw [take_drop_scaleLast]
+    have hcs := scaleLast_chain3 (vend.f 0 0) hc1
+    have e : ∀ σ ∈ digitsU d n,
+        ‖(⟨List.replicate d 0,
+            (List.range (n + 1)).map (fun i => List.replicate
+              (if i = 0 then 1 else ((scaleLast (vend.f 0 0) As).getD (i - 1) MPS.ones111).d2) (0 : Int)),
+            scaleLast (vend.f 0 0) As⟩ : MPS 𝕜).amp σ - v.getD (flat d σ) 0‖ ^ 2 =
+        ‖fvRec As vend 0 σ - (⟨1, v.length, fun _ c => v.toArray.getD c 0⟩ : Mat 𝕜).f 0 (flat d σ)‖ ^ 2 := by
+      intro σ hσ
+      rw [amp_eq_pmat (ψ := ⟨_, _, scaleLast (vend.f 0 0) As⟩) hcs hσ]
+      show ‖pmat (scaleLast (vend.f 0 0) As) σ 0 0 - _‖ ^ 2 = _
+      rw [scaleLast_pmat _ hc1 hne hσ Nat.one_pos]
+      unfold fvRec
+      rw [hv.1, Finset.sum_range_one, mul_comm]
+      show _ = ‖_ - v.toArray.getD (flat d σ) 0‖ ^ 2
+      rw [toArray_getD]
+    rw [Finset.sum_congr rfl e]
+    have hE : fvErr d n (⟨1, v.length, fun _ c => v.toArray.getD c 0⟩ : Mat 𝕜) As vend =
+        ∑ σ ∈ digitsU d n, ‖fvRec As vend 0 σ -
+          (⟨1, v.length, fun _ c => v.toArray.getD c 0⟩ : Mat 𝕜).f 0 (flat d σ)‖ ^ 2 := by
+      unfold fvErr
+      rw [Finset.sum_range_one]
+    have hF : frobM (⟨1, v.length, fun _ c => v.toArray.getD c 0⟩ : Mat 𝕜) =
+        ∑ c ∈ range v.length, ‖v.getD c 0‖ ^ 2 := by
+      unfold frobM
+      rw [Finset.sum_range_one]
+      refine Finset.sum_congr rfl fun c _ => ?_
+      show ‖v.toArray.getD c 0‖ ^ 2 = _
+      rw [toArray_getD]
+    rw [← hE, ← hF]
+    exact hb
+
 end Ptn.Compress
